@@ -35,10 +35,14 @@ def scenarios(rng, n, heading_share=0.0):
         kind = rng.choice(["format", "name", "sink"])
         if entry.startswith("r"):
             nbad = min(nbad, 1)
+        surely_bad = True
         if nbad and kind == "format" and not entry.startswith("r"):
             root_idx = [i for i, l in enumerate(lines) if not l.startswith(b" ")]
             for i in rng.sample(root_idx, min(nbad, len(root_idx))):
-                lines.insert(i + 1, rng.choice([b"  x no bullet", b"  -", b"      - jump"]))
+                bad_line = rng.choice([b"  x no bullet", b"  -", b"      - jump"])
+                if b"jump" in bad_line:
+                    surely_bad = False      # as the document's first indented line it defines the unit and is well-formed
+                lines.insert(i + 1, bad_line)
                 root_idx = [j + (1 if j > i else 0) for j in root_idx]
         elif nbad and kind == "name" and entry in ("out-dry", "mkdir", "verify", "mkdir-dry"):
             root_idx = [i for i, l in enumerate(lines) if not l.startswith(b" ")]
@@ -74,11 +78,13 @@ def scenarios(rng, n, heading_share=0.0):
         else:
             inp = doc
         case = "mscn %s %d %s %s %s %s %s %s %s - %s 0 %s" % (entry, procs, cancel, rfail, budget, cbfail, seed, slow, snap_arg(pre), hx(b"tgt"), hx(inp))
-        out.append((case, entry, cancel, rfail, nbad, nroots, len(doc)))
+        fmt_bad = bool(nbad and kind == "format" and not entry.startswith("r") and surely_bad and not heading)
+        faultless = (nbad == 0 and "verify" not in entry and not heading)
+        out.append((case, entry, cancel, rfail, nbad, nroots, len(doc), "fmt" if fmt_bad else "clean" if faultless else "other"))
     return out
 
 
-def judge(ck, case, res, entry, cancel, rfail, nbad, nroots, dl, race=False):
+def judge(ck, case, res, entry, cancel, rfail, nbad, nroots, dl, race=False, expect="other"):
     f = res.split(" ")
     r = f[0]
     bad = None
@@ -90,6 +96,12 @@ def judge(ck, case, res, entry, cancel, rfail, nbad, nroots, dl, race=False):
         bad = "context cancelled before the call, result " + r
     elif cancel.startswith("r") and not entry.startswith("r") and int(cancel[1:]) < dl - 1 and r == "ok" and rfail == "-":
         bad = "context cancelled after %s of %d input bytes but the call returned nil" % (cancel[1:], dl)
+    elif expect == "fmt" and r == "ok":
+        # C10_nil_return_no_failure: nil is returned only if no block fails at any stage
+        bad = "a block is malformed but the call returned nil"
+    elif expect == "clean" and cancel == "-" and rfail == "-" and r != "ok":
+        # C10_faultless_returns_nil / C10_error_return_exact: an error needs a cause in the scenario
+        bad = "nothing fails and nobody cancels, yet the call returned " + r
     if bad:
         ck.violation({"property": "C11", "kind": "massive_returns", "class": entry + "|" + bad[:30] + ("|race-build" if race else ""),
                       "case": case, "got": res[:300], "why": bad})
@@ -108,13 +120,14 @@ def run(ck, rng):
     def max_ms(rs):
         return max([int(r.split(" ")[1]) for r in rs if len(r.split(" ")) > 2 and r.split(" ")[1].isdigit()] or [0])
     ck.extra["max_call_ms"] = max_ms(impl)
-    for (case, entry, cancel, rfail, nbad, nroots, dl), res in zip(scs, impl):
+    for (case, entry, cancel, rfail, nbad, nroots, dl, expect), res in zip(scs, impl):
         ck.case(case[:300], nbad > 0 or cancel != "-" or nroots >= 3)
         ck.count("entry:" + entry)
         ck.count("cancel:" + (cancel[0] if cancel != "-" else "none"))
         ck.count("failing_blocks:%s" % (nbad if nbad < 3 else "3+"))
         ck.count("result:" + res.split(" ")[0].split(":")[-1][:12])
-        judge(ck, case, res, entry, cancel, rfail, nbad, nroots, dl)
+        ck.count("expect:" + expect)
+        judge(ck, case, res, entry, cancel, rfail, nbad, nroots, dl, expect=expect)
     # the same kind of scenarios under the race detector
     rexe = build_godriver("race")
     rs = scenarios(rng, 250 if ck.tier == "quick" else 5000, heading_share=0.4)
@@ -130,14 +143,14 @@ def run(ck, rng):
         cbf = str(rng.randint(0, 3 * nroots)) if entry == "walk" else "-"
         case = "mscn %s %d - - %s %s %d %s %s - %s 0 %s" % (entry, rng.choice([2, 4, 16]), budget, cbf, rng.choice([0, rng.randint(1, 10 ** 6)]), rng.choice("01"),
                                                           snap_arg([(b"tgt", "d")]), hx(b"tgt"), hx(doc))
-        rs.append((case, entry, "-", "-", 1, nroots, len(doc)))
+        rs.append((case, entry, "-", "-", 1, nroots, len(doc), "other"))
     env = dict(os.environ, GORACE="halt_on_error=1 exitcode=66")
     rimpl, rcrashes = run_impl(rexe, [s[0] for s in rs], per_case_timeout=60.0, env=env, max_abnormal=6)
     ck.extra["max_call_ms_race_build"] = max_ms(rimpl)
-    for (case, entry, cancel, rfail, nbad, nroots, dl), res in zip(rs, rimpl):
+    for (case, entry, cancel, rfail, nbad, nroots, dl, expect), res in zip(rs, rimpl):
         ck.case("race " + case[:300], True)
         ck.count("race_build_cases")
-        judge(ck, case, res, entry, cancel, rfail, nbad, nroots, dl, race=True)
+        judge(ck, case, res, entry, cancel, rfail, nbad, nroots, dl, race=True, expect=expect)
     for idx, kind, etxt in rcrashes:
         if "DATA RACE" in etxt:
             import re
